@@ -476,7 +476,7 @@ Fixpoint interface_verifier (ts : list mtop) : outcome unit :=
 
 Inductive entry := Cli | Lib.
 
-Definition front (e : entry) (md : mode) (files : list ast) : outcome (list mtop) :=
+Definition front_gen (lib_verifies : bool) (e : entry) (md : mode) (files : list ast) : outcome (list mtop) :=
   match files with
   | [] => Reject RIo
   | main :: _ =>
@@ -485,6 +485,11 @@ Definition front (e : entry) (md : mode) (files : list ast) : outcome (list mtop
       do order <- cycles_pass st main;
       do _ <- verify_structs md st [] order;
       do mir <- to_mir st (a_nodes main);
-      do _ <- match e with Cli => interface_verifier mir | Lib => Ok tt end;
+      do _ <- match e with
+              | Cli => interface_verifier mir
+              | Lib => if lib_verifies then interface_verifier mir else Ok tt
+              end;
       Ok mir
   end.
+(* lib.rs runs the InterfaceVerifier since the repair of the library entry point (regenerated fact) *)
+Definition front := front_gen lib_runs_interface_verifier.
